@@ -406,6 +406,55 @@ def canon_infoset(dt, items):
     return " ".join(out)
 
 
+# ---- C07, XML half: relations between the generation modes (theorems c07_xml_indent_compact_e / c07_xml_compact_canonical_e,
+#      Proofs/EncXmlC07e.v), checked on the pyexpat infosets of the C's outputs
+
+XWS = b" \t\n\r"
+
+
+def nb_infoset(it):
+    """modulo blank text between markup: in every element that has an element child each run of character data is trimmed and
+    blank runs are dropped; elements with only character data are kept exactly (nb of Proofs/EncXmlIndent.v)"""
+    if it[0] == "t":
+        return it
+    ch = [nb_infoset(c) for c in it[3]]
+    if any(c[0] == "e" for c in ch):
+        ch = [c if c[0] == "e" else ("t", c[1].strip(XWS)) for c in ch]
+        ch = [c for c in ch if c[0] == "e" or c[1]]
+    return ("e", it[1], it[2], ch)
+
+
+def eol_infoset(it):
+    """the reader's own normalisation applied to a canonical reading: line ends in character data, attribute-value
+    normalisation in attribute values (eol_rel of Proofs/EncXmlC07e.v, for trees without a text ending in CR directly
+    before a CDATA payload starting with LF)"""
+    if it[0] == "t":
+        return ("t", norm_text(it[1]))
+    return ("e", it[1], [(k, norm_attr(v)) for k, v in it[2]], merge_t([eol_infoset(c) for c in it[3]]))
+
+
+def merge_t(items):
+    out = []
+    for c in items:
+        if c[0] == "t" and out and out[-1][0] == "t":
+            out[-1] = ("t", out[-1][1] + c[1])
+        else:
+            out.append(c)
+    return out
+
+
+def cr_before_cdata(roots):
+    """the one shape where the piecewise normalisation is not the normalisation of the merged text"""
+    for i, n in enumerate(roots):
+        if n.kind == "T" and n.text and n.text.endswith(b"\r") and i + 1 < len(roots) and roots[i + 1].kind == "C":
+            return True
+        if n.kind == "S" and cr_before_cdata(n.sub[1]):
+            return True
+        if cr_before_cdata(n.children):
+            return True
+    return False
+
+
 def tree_size(roots):
     """size_t of Proofs/EncXmlSize.v: bytes of names, attribute names / values and text + nodes + attributes"""
     n = 0
@@ -597,6 +646,7 @@ def run(ctx):
 
     concrete, corr, pending_hits = [], [], {}
     size_bad, nsize = [], 0
+    by_doc = {}          # (case, keep_ws) -> {(gen, indent): (pyexpat items, evaluation index)}
     shape_count = {}
     kinds, verdicts, skipwhy = {}, {}, {}
     nontrivial = set()
@@ -650,6 +700,7 @@ def run(ctx):
             reads.append((i, xml_bytes, None))
         elif v == "ok":
             nontrivial.add((c["doc"], g, ind, kw))
+            by_doc.setdefault((ci, kw), {})[(g, ind)] = (det["infoset"][1], i)
             ci_ = canon_infoset(*det["infoset"])
             reads.append((i, xml_bytes, ci_))
             specs.append((i, "spec %d %d %d %s" % (g, ind, kw, dump), " ".join(ci_.split()[4:])))
@@ -663,6 +714,26 @@ def run(ctx):
             concrete.append(payload)
     for cr in crashes:
         concrete.append({"kind": "crash-or-sanitizer-report", **cr})
+
+    # ---- C07 XML half: the generation modes denote the same document (indent ~ compact modulo blank text between markup;
+    #      compact = canonical with the reader's normalisation)
+    mode_bad, n_ic, n_kc = [], 0, 0
+    for (ci, kw), res in by_doc.items():
+        if (0, 0) not in res:
+            continue
+        rc = res[(0, 0)][0]
+        for (g, ind), (r, i) in res.items():
+            if g == 1:
+                n_ic += 1
+                if [nb_infoset(x) for x in r] != [nb_infoset(x) for x in rc]:
+                    mode_bad.append({"kind": "indent-vs-compact", "wbxml": cases[ci]["doc"].hex(), "forced": cases[ci]["forced"], "mode": [g, ind], "keep_ws": kw})
+            elif g == 2 and kw == 1:
+                dump_i = ca[i][8:].split(" | xml ")[0].split()
+                if cr_before_cdata(parse_dump(dump_i)[1]):
+                    continue
+                n_kc += 1
+                if [eol_infoset(x) for x in r] != rc:
+                    mode_bad.append({"kind": "canonical-vs-compact", "wbxml": cases[ci]["doc"].hex(), "forced": cases[ci]["forced"], "mode": [g, ind], "keep_ws": kw})
 
     # ---- reader model vs pyexpat
     rlines = ["read %s" % (x.hex() or "-") for _, x, _ in reads]
@@ -709,6 +780,9 @@ def run(ctx):
         "shapes_reached": shape_count,
         "size_bound_checked": nsize,
         "size_bound_exceeded": len(size_bad),
+        "c07_indent_vs_compact_compared": n_ic,
+        "c07_canonical_vs_compact_compared": n_kc,
+        "c07_mode_relation_broken": len(mode_bad),
         "pending_findings": {k: len(v) for k, v in pending_hits.items()},
     })
 
@@ -727,6 +801,8 @@ def run(ctx):
     if read_bad:
         ctx.violation("reader-model-vs-pyexpat", {"broken": "Model/XmlRead.v read_xml disagrees with pyexpat on output of the C", "first_cases": read_bad[:3]},
                       found_input=False)
+    for v in mode_bad[:2]:
+        ctx.violation("c-modes-denote-different-documents-" + v["kind"], {"broken": "C07 XML half: " + v["kind"] + " relation (Proofs/EncXmlC07e.v) fails on the C's outputs", **v})
     for v in size_bad[:1]:
         ctx.violation("c-exceeds-size-bound", {"broken": "output longer than the bound of C01x_xml_size (Proofs/EncXmlSize.v)", "kind": "size-bound", **v})
     if spec_bad:
